@@ -58,6 +58,8 @@ def gen(S, tier):
     c = S("config")
     width = c.pick([8, 12, 20, 40])
     cfg = {"width": width, "ansi": c.chance(0.85), "forced": c.chance(0.2),
+           # an ANSI-capable stream behind a formatter that disables decoration (tty + --no-ansi)
+           "plain_formatter": c.chance(0.12),
            "pre": [("p" * c.randint(1, width + 3)) for _ in range(c.randint(0, 2))],
            "indent": c.pick([0, 0, 0, 1, 2, 4])}
     w = S("workload")
@@ -87,8 +89,8 @@ def gen(S, tier):
 
 def simplify(sc):
     cfg = sc["config"]
-    for k, v in (("indent", 0), ("pre", []), ("forced", False)):
-        if cfg[k] != v:
+    for k, v in (("indent", 0), ("pre", []), ("forced", False), ("plain_formatter", False)):
+        if cfg.get(k, v) != v:
             yield dict(sc, config=dict(cfg, **{k: v}))
     for i, op in enumerate(sc["ops"]):
         if op[0] in ("write_line", "write", "overwrite"):
@@ -110,7 +112,7 @@ def simplify(sc):
 
 
 def condition(sc, v):
-    return {"ansi": sc["config"]["ansi"] or sc["config"]["forced"]}
+    return {"ansi": (sc["config"]["ansi"] or sc["config"]["forced"]) and not sc["config"].get("plain_formatter")}
 
 
 def execute(sc):
@@ -144,9 +146,14 @@ def _run(sc, cfg):
     width = cfg["width"]
     screen = Screen(width)
     stream = SimOutputStream("out", log, ansi=cfg["ansi"], screen=screen)
-    fmtr = AnsiFormatter(forced=cfg["forced"])
+    if cfg.get("plain_formatter"):
+        from clikit.formatter import PlainFormatter
+        fmtr = PlainFormatter()
+        decorated = False
+    else:
+        fmtr = AnsiFormatter(forced=cfg["forced"])
+        decorated = cfg["ansi"] or cfg["forced"]
     out = Output(stream, fmtr)
-    decorated = cfg["ansi"] or cfg["forced"]
     vis = fmtr.remove_format
     for line in cfg["pre"]:
         out.write_line(line)
